@@ -3,8 +3,9 @@ Require Import Parser Render Api Shape Count.
 Require Import ParserShape2 RenderCount RenderCountP RenderParamTotal RenderTotal RenderValues Values SameKind RenderShape.
 Require PgModel.
 Require Import QuerySem SqlSem SqlFrag SqlFragP.
-Require SqlParse SqlParseP SqlSemProof SqlSemProofP.
-From Coq Require Import ZArith List String Ascii.
+Require SqlParse SqlParseP SqlSemProof SqlSemProofP SqlProvenanceP SqlLexP SqlEndToEndP SqlQueryTextP.
+Require Api Lex LexWs Printer PrintedText.
+From Coq Require Import ZArith List String Ascii Lia.
 Import ListNotations.
 
 (* (a) on every tree of the parser's output shape whose range fields are columns (rfield_ok; a numeric field term in a closed
@@ -59,6 +60,40 @@ Proof.
   rewrite (SqlSemProofP.trp_sem r e ts2 a2 ps T2 S B), (SqlSemProof.tr_sem r [] e ts1 a1 T1 S). reflexivity.
 Qed.
 
+(* ... end to end on the model's parameterized renderer: whenever RenderParam returns (s, ps') for a tree of the fragment, ps' is
+   the parameter list of trp, PostgreSQL's scanner and grammar models read from s - its placeholders numbered $1, $2, ... by
+   SqlFragP.number_placeholders, as a client library does - exactly the expression a2, and a2 with ps' bound is true on exactly the
+   rows of the query (names of at most 63 bytes; fewer than 10^9 parameters, the scanner's limit on the digits of a placeholder) *)
+Theorem C04_parameterized_text_read_by_postgres :
+  forall (o2 : oracle2) (r : row) (e : Parser.expr) (ts2 : list PgModel.tok) (a2 : PgModel.ast) (ps ps' : list value) (s : string),
+  trp e 1 = Some (ts2, a2, ps) -> side e = true -> names_ok e = true -> (Z.of_nat (1 + SqlLexP.pcount e) < 1000000000)%Z ->
+  render_param o2 e = Ret (s, ps', None) ->
+  ps' = ps /\ PgModel.pg_read (number_placeholders (PgModel.str s)) = Some a2 /\ ssem r (map prv ps') a2 = qsem r e.
+Proof.
+  intros o2 r e ts2 a2 ps ps' s T S Nm Hk R. destruct (SqlEndToEndP.render_param_reads o2 e ts2 a2 ps s ps' T Nm Hk R) as [Ep Rd].
+  split; [exact Ep|]. split; [exact Rd|]. subst ps'. apply (SqlSemProofP.trp_sem r e ts2 a2 ps T S).
+  rewrite (SqlLexP.trp_pcount_sz _ e (le_n _) 1 ts2 a2 ps T). lia.
+Qed.
+
+(* all values travel as parameters: the parameterized expression holds no string constant and no numeric constant at all, and its
+   placeholders are exactly $1 ... $n in order, one per parameter *)
+Theorem C04_all_values_travel_as_parameters : forall (e : Parser.expr) (ts2 : list PgModel.tok) (a2 : PgModel.ast) (ps : list value),
+  trp e 1 = Some (ts2, a2, ps) ->
+  SqlProvenanceP.consts_of a2 = [] /\ SqlProvenanceP.params_of a2 = SqlProvenanceP.pnums 1 (List.length ps).
+Proof. exact SqlProvenanceP.trp_no_constants. Qed.
+
+(* and from the query TEXT: a query printed from a specification tree (C05) whose parse is in the fragment *)
+Theorem C04_query_text_to_parameterized_rows :
+  forall (o : oracle) (o2 : oracle2) (cl : Lex.classes),
+  (forall r, Lex.is_space r = true -> Lex.is_alnum cl r = false) ->
+  forall (t : Printer.qt) (ts : list PgModel.tok) (a : PgModel.ast) (ps ps' : list value) (s : string),
+  Printer.wfq o t -> Forall (LexWs.lexes_alone cl) (map PrintedText.ltok (Printer.pr t)) ->
+  trp (Printer.want o t) 1 = Some (ts, a, ps) ->
+  side (Printer.want o t) = true -> names_ok (Printer.want o t) = true -> (Z.of_nat (1 + SqlLexP.pcount (Printer.want o t)) < 1000000000)%Z ->
+  Api.to_param_postgres o o2 cl "" (PrintedText.text_of (Printer.pr t)) = Ret (s, ps', None) ->
+  ps' = ps /\ PgModel.pg_read (number_placeholders (PgModel.str s)) = Some a /\ forall r : row, ssem r (map prv ps') a = qsem r (Printer.want o t).
+Proof. exact SqlQueryTextP.to_param_postgres_on_printed_fragment_query. Qed.
+
 (* the premises are met: a range AND NOT a pattern, OR a value list *)
 Definition c04_lit (v : value) : Parser.expr := E v Literal VNil 0%Z 0%Z.
 Definition c04_col (f : string) : value := VExp (c04_lit (VCol f)).
@@ -74,6 +109,9 @@ Proof. split; [vm_compute; reflexivity|]. split; eexists; eexists; vm_compute; r
 Print Assumptions C04_placeholders_match_parameters.
 Print Assumptions C04_parameterized_sql_selects_the_rows_of_the_query.
 Print Assumptions C04_substituted_parameters_equivalent_to_inline.
+Print Assumptions C04_parameterized_text_read_by_postgres.
+Print Assumptions C04_all_values_travel_as_parameters.
+Print Assumptions C04_query_text_to_parameterized_rows.
 Print Assumptions C04_sql_text_independent_of_values.
 Print Assumptions C04_parameters_are_the_values.
 Print Assumptions C04_render_param_returns.
